@@ -158,6 +158,12 @@ func Menu() []Tmpl {
 		{"activate I1->V1 (validated)", func(b *B) *types.Transaction {
 			return b.Tx(Spec{From: I1, To: PA(V1), Type: types.ActivationTx, Payload: PubKeyOf(V1)})
 		}},
+		{"activate NEW->self", func(b *B) *types.Transaction {
+			return b.Tx(Spec{From: NEW, To: PA(NEW), Type: types.ActivationTx, Payload: PubKeyOf(NEW)})
+		}},
+		{"replenish X1->NEW 10", func(b *B) *types.Transaction {
+			return b.Tx(Spec{From: X1, To: PA(NEW), Type: types.ReplenishStakeTx, Amount: replica.Dna(10)})
+		}},
 		{"kill V2", func(b *B) *types.Transaction { return b.Tx(Spec{From: V2, Type: types.KillTx}) }},
 		{"kill D1", func(b *B) *types.Transaction { return b.Tx(Spec{From: D1, Type: types.KillTx}) }},
 		{"kill N1 (newbie)", func(b *B) *types.Transaction { return b.Tx(Spec{From: N1, Type: types.KillTx}) }},
@@ -267,6 +273,64 @@ func Menu() []Tmpl {
 			f := b.ExactFee(s)
 			s.MaxFee = new(big.Int).Add(f, big.NewInt(1))
 			return b.Tx(s)
+		}},
+		{"fund contract0 X2 5", func(b *B) *types.Transaction {
+			c := b.Contract(0)
+			if c == nil {
+				return nil
+			}
+			return b.Tx(Spec{From: X2, To: c, Type: types.SendTx, Amount: replica.Dna(5)})
+		}},
+		{"call contract0 transfer->X2 1 by owner X1", func(b *B) *types.Transaction {
+			c := b.Contract(0)
+			if c == nil {
+				return nil
+			}
+			return b.Tx(Spec{From: X1, To: c, Type: types.CallContractTx, Payload: CallPayload("transfer", A(X2).Bytes(), replica.Dna(1).Bytes()), MaxFee: replica.Dna(20)})
+		}},
+		{"call contract0 transfer->Z balance+1 by owner X1", func(b *B) *types.Transaction {
+			c := b.Contract(0)
+			if c == nil {
+				return nil
+			}
+			amt := new(big.Int).Add(b.R.App.State.GetBalance(*c), big.NewInt(1))
+			return b.Tx(Spec{From: X1, To: c, Type: types.CallContractTx, Payload: CallPayload("transfer", A(Z).Bytes(), amt.Bytes()), MaxFee: replica.Dna(20)})
+		}},
+		{"call contract0 transfer->Z all, pay 2, by owner X1", func(b *B) *types.Transaction {
+			c := b.Contract(0)
+			if c == nil {
+				return nil
+			}
+			amt := new(big.Int).Add(b.R.App.State.GetBalance(*c), replica.Dna(2))
+			return b.Tx(Spec{From: X1, To: c, Type: types.CallContractTx, Amount: replica.Dna(2), Payload: CallPayload("transfer", A(Z).Bytes(), amt.Bytes()), MaxFee: replica.Dna(20)})
+		}},
+		{"call contract0 transfer by X2 (not owner)", func(b *B) *types.Transaction {
+			c := b.Contract(0)
+			if c == nil {
+				return nil
+			}
+			return b.Tx(Spec{From: X2, To: c, Type: types.CallContractTx, Amount: replica.Dna(1), Payload: CallPayload("transfer", A(X2).Bytes(), replica.Dna(1).Bytes()), MaxFee: replica.Dna(20)})
+		}},
+		{"call contract0 unknown method by X1", func(b *B) *types.Transaction {
+			c := b.Contract(0)
+			if c == nil {
+				return nil
+			}
+			return b.Tx(Spec{From: X1, To: c, Type: types.CallContractTx, Payload: CallPayload("nope"), MaxFee: replica.Dna(20)})
+		}},
+		{"terminate contract0 by X1", func(b *B) *types.Transaction {
+			c := b.Contract(0)
+			if c == nil {
+				return nil
+			}
+			return b.Tx(Spec{From: X1, To: c, Type: types.TerminateContractTx, Payload: TerminatePayload(A(X1).Bytes()), MaxFee: replica.Dna(20)})
+		}},
+		{"terminate contract0 by X2 (not owner)", func(b *B) *types.Transaction {
+			c := b.Contract(0)
+			if c == nil {
+				return nil
+			}
+			return b.Tx(Spec{From: X2, To: c, Type: types.TerminateContractTx, Payload: TerminatePayload(A(X2).Bytes()), MaxFee: replica.Dna(20)})
 		}},
 		{"call X1->X2 (no contract)", func(b *B) *types.Transaction {
 			return b.Tx(Spec{From: X1, To: PA(X2), Type: types.CallContractTx, Payload: CallPayload("transfer"), MaxFee: replica.Dna(20)})
